@@ -350,3 +350,109 @@ def c29(tier, seed):
         steps += [{"do": "heal"}, {"do": "quiesce", "ms": 1500}, {"do": "take", "r": 0}, {"do": "final"}]
         out.append({"name": f"C29-{mode}-{k}", "family": mode, "seed": seed * 43 + k, "frag": 64, "steps": steps})
     return out
+
+
+# ---------------------------------------------------------------------------------------------
+def c16(tier, seed):
+    """matched-status counts under remote endpoint creation, QoS update, deletion, participant departure"""
+    rng = random.Random(seed)
+    out = []
+    n = 40 if tier == "quick" else 500
+    for k in range(n):
+        nparts = rng.choice([2, 3])
+        nwriters = rng.choice([1, 1, 2])
+        steps = [{"do": "participant"} for _ in range(nparts)]
+        steps += [{"do": "create_writer", "part": 0, "qos": q(rel=rng.choice(["RELIABLE", "RELIABLE", "BEST_EFFORT"]), deadline_ms=rng.choice([None, 2000]))}
+                  for _ in range(nwriters)]
+        readers = []      # (index, part)
+        silenced = False
+        for j in range(rng.randint(3, 8)):
+            live = [r for r in readers if r[2]]
+            op = rng.choice(["create", "create", "delete", "qos", "status", "status", "delpart", "silence"])
+            if op == "create" or not readers:
+                part = rng.randrange(1, nparts)
+                rq = q(rel=rng.choice(["RELIABLE", "BEST_EFFORT"]), deadline_ms=rng.choice([None, None, 1000, 5000]))
+                steps.append({"do": "create_reader", "part": part, "qos": rq})
+                readers.append([len(readers), part, True, rq])
+            elif op == "delete" and live:
+                r = rng.choice(live)
+                steps.append({"do": "delete_reader", "r": r[0]})
+                r[2] = False
+            elif op == "qos" and live:
+                r = rng.choice(live)
+                nq = dict(r[3])
+                nq["deadline_ms"] = rng.choice([None, 1000, 5000])   # deadline is changeable; may become (in)compatible
+                r[3] = nq
+                steps.append({"do": "set_reader_qos", "r": r[0], "qos": nq})
+            elif op == "delpart" and nparts == 3 and any(r[1] == 2 and r[2] for r in readers):
+                steps.append({"do": "delete_participant", "part": 2})
+                for r in readers:
+                    if r[1] == 2:
+                        r[2] = False
+            elif op == "silence" and nparts == 3 and not silenced and tier == "thorough" or (op == "silence" and k % 7 == 0 and nparts == 3 and not silenced):
+                steps.append({"do": "silence_participant", "part": 2})
+                steps.append({"do": "sleep", "ms": 101500})
+                silenced = True
+                for r in readers:
+                    if r[1] == 2:
+                        r[2] = False
+            steps.append({"do": "sleep", "ms": 1200})
+            for w in range(nwriters):
+                if rng.random() < 0.6:
+                    steps.append({"do": "pub_status", "w": w})
+            for r in readers:
+                if r[2] and rng.random() < 0.4:
+                    steps.append({"do": "sub_status", "r": r[0]})
+            if rng.random() < 0.3:
+                steps.append({"do": "write", "w": 0, "i": 1, "len": 8})
+        steps.append({"do": "sleep", "ms": 1500})
+        for w in range(nwriters):
+            steps.append({"do": "pub_status", "w": w})
+        out.append({"name": f"C16-{k}", "family": "hist", "seed": seed * 47 + k, "frag": 1344, "steps": steps, "max_steps": 8000000})
+    return out
+
+
+def c17(tier, seed):
+    """participant discovery, domain/tag isolation, lease expiry window, rediscovery, ignore"""
+    rng = random.Random(seed)
+    out = []
+    n = 24 if tier == "quick" else 300
+    for k in range(n):
+        mode = ["isolation", "lease", "rediscover", "ignore", "loss"][k % 5]
+        steps = []
+        if mode == "isolation":
+            combos = [(0, None), (0, None), (rng.choice([1, 2]), None), (0, "x"), (0, "x"), (1, "x")]
+            rng.shuffle(combos)
+            for (d, tag) in combos[:rng.randint(3, 5)]:
+                st = {"do": "participant", "domain": d}
+                if tag:
+                    st["tag"] = tag
+                steps.append(st)
+            nparts = len(steps)
+            steps.append({"do": "sleep", "ms": rng.choice([300, 6000])})
+            steps += [{"do": "discovered", "part": p} for p in range(nparts)]
+        elif mode in ("lease", "rediscover"):
+            steps = [{"do": "participant"}, {"do": "participant"}, {"do": "participant"}, {"do": "sleep", "ms": rng.choice([300, 2300, 4800])}]
+            steps += [{"do": "discovered", "part": p} for p in range(3)]
+            steps.append({"do": "silence_participant", "part": 2})
+            # still there before the lease expired (the last data was received at most one announcement period before)
+            steps.append({"do": "sleep", "ms": rng.choice([1000, 50000, 93000])})
+            steps += [{"do": "discovered", "part": 0}, {"do": "discovered", "part": 2}]
+            steps.append({"do": "sleep", "ms": 101200})
+            steps += [{"do": "discovered", "part": 0}, {"do": "discovered", "part": 1}, {"do": "discovered", "part": 2}]
+            if mode == "rediscover":
+                steps.append({"do": "unsilence"})
+                steps.append({"do": "sleep", "ms": 6500})
+                steps += [{"do": "discovered", "part": p} for p in range(3)]
+        elif mode == "ignore":
+            steps = [{"do": "participant"}, {"do": "participant"}, {"do": "participant"}, {"do": "sleep", "ms": 300},
+                     {"do": "ignore_participant", "part": 0, "target": 1}, {"do": "sleep", "ms": rng.choice([200, 6000, 11000])}]
+            steps += [{"do": "discovered", "part": p} for p in range(3)]
+        else:
+            steps = [{"do": "meta_faults", "loss": rng.choice([0.3, 0.6, 0.8]), "dup": 0.2, "delay": 0.3, "max_delay_ms": 200},
+                     {"do": "participant"}, {"do": "participant"}, {"do": "participant", "domain": 3}, {"do": "sleep", "ms": rng.choice([1000, 20000])},
+                     {"do": "heal"}, {"do": "sleep", "ms": 6500}]
+            steps += [{"do": "discovered", "part": p} for p in range(3)]
+        out.append({"name": f"C17-{mode}-{k}", "family": mode, "seed": seed * 53 + k, "frag": 1344, "steps": steps, "log_meta": True,
+                    "max_steps": 12000000})
+    return out
